@@ -51,6 +51,45 @@ func takeRateState(tok0 math.Int, rate math.LegacyDec, second int) (*env.Env, ti
 
 func clock(e *env.Env) time.Time { return e.K.LastRewardClaimTime(e.Ctx) }
 
+// H_C09_warmup: while the only asset with a take rate is still in its warm-up period nothing is
+// charged and the clock keeps pace with the block time - otherwise the first deduction after the
+// start would compound over the intervals that elapsed during the warm-up (retroactive charge).
+func H_C09_warmup() {
+	id := "C09.warmup"
+	t0 := nd.TimeRange("t0", TLo, THi)
+	e := env.New(t0, 100)
+	NewValidator(e, Vals[0], 3, math.NewInt(1000000), math.LegacyNewDec(1000000))
+	iv := nd.DurRange("claim_iv", 1, int64(366*24*time.Hour))
+	last := nd.TimeRange("last_claim", TLo, THi)
+	nd.Assume(!last.After(t0))
+	if err := e.K.SetParams(e.Ctx, types.Params{RewardDelayTime: time.Hour, TakeRateClaimInterval: iv, LastTakeRateClaimTime: last}); err != nil {
+		panic(err)
+	}
+	tok := nd.IntRange("T", "2", Pow30)
+	start := nd.TimeRange("start", TLo, THi)
+	a := types.AllianceAsset{Denom: Denoms[0], RewardWeight: math.LegacyOneDec(),
+		RewardWeightRange: types.RewardWeightRange{Min: math.LegacyZeroDec(), Max: math.LegacyNewDec(10)},
+		TakeRate:          nd.DecRange("rate", "0.000000000000000001", "0.999999999999999999"), TotalTokens: tok, TotalValidatorShares: math.LegacyNewDecFromInt(tok),
+		RewardStartTime: start, RewardChangeRate: math.LegacyOneDec(), LastRewardChangeTime: start, IsInitialized: false}
+	if err := e.K.SetAsset(e.Ctx, a); err != nil {
+		panic(err)
+	}
+	e.Bank.Fund(e.Ak.GetModuleAddress(types.ModuleName), Denoms[0], tok)
+	t1 := nd.TimeRange("t1", TLo, THi)
+	nd.Assume(nd.And(!t1.Before(t0), t1.Before(start))) // still warming up at the block under test
+	nd.Assume(t1.After(last.Add(iv)))                   // the hook is due
+	e.WithBlock(t1, 101)
+	fee := e.Ak.GetModuleAddress("fee_collector")
+	var err error
+	nd.Reach(id)
+	if !NoPanic(id, func() { _, err = e.K.DeductAssetsHook(e.Ctx, e.K.GetAllAssets(e.Ctx)) }) {
+		return
+	}
+	post, _ := e.K.GetAssetByDenom(e.Ctx, Denoms[0])
+	nd.Assert(id, nd.And(err == nil, post.TotalTokens.Equal(tok), e.Bank.Balance(fee, Denoms[0]).IsZero()))
+	nd.Assert(id+".clock", clock(e).Equal(t1))
+}
+
 // H_C09_clock_X (exact arithmetic, symbolic clock): the deduction fires iff now > last+interval;
 // when coins move the clock advances by exactly n whole intervals, never past the block time,
 // and lags it by less than one interval.
